@@ -76,6 +76,7 @@ type pathResult struct {
 	PCSample    string
 	KnownSeen   []string
 	Reached     []string
+	FailsAll    string // assertion that fails for every input of this path (path stopped there)
 	funcsCalled map[string]int64
 }
 
@@ -96,6 +97,7 @@ type pathState struct {
 	alts      [][]decision // alternatives discovered on this path
 	funcs     map[string]int64
 	wantModel bool
+	failsAll  string
 	decided   map[*term]bool // conditions already implied by / added to the path condition
 }
 
